@@ -60,6 +60,9 @@ func scenario(name string, pre []Op, threads []thr, barrierAt int, extra func(re
 					}
 					vsched.Op(o.String())
 					got, err := w.do(o, o.Ms)
+					if w.e.resent.Swap(false) {
+						vsched.Log("!resent")
+					}
 					rc := rec{Op: o, Res: got, Dump: w.dump()}
 					if err != nil {
 						rc.Err = err.Error()
@@ -79,6 +82,9 @@ func scenario(name string, pre []Op, threads []thr, barrierAt int, extra func(re
 		var recs []rec
 		var sig []string
 		for i, l := range e.Log() {
+			if l == "!resent" { // the redis client re-sent a command: not a valid observation
+				return vx.Verdict{Sig: "skipped: client re-sent a command"}
+			}
 			if strings.HasPrefix(l, "!ids ") {
 				return vx.Verdict{Class: "lock-ids-not-distinct", Msg: l[5:], Sig: "ids"}
 			}
